@@ -293,6 +293,7 @@ func (c *ProofCommit) Update(commitments []*big.Int, witness *Witness) {
 func (w *Witness) Update(pk *gabikeys.PublicKey, update *Update) error {
 	Logger.Tracef("revocation.Witness.Update()")
 	defer Logger.Tracef("revocation.Witness.Update() done")
+	defer verifTraceUpdate(w, update)()
 
 	newAcc, err := update.Verify(pk)
 	ourAcc := w.SignedAccumulator.Accumulator
@@ -528,5 +529,6 @@ func newWitness(sk *gabikeys.PrivateKey, acc *Accumulator, e *big.Int) (*Witness
 		return nil, errors.New("failed to compute modular inverse")
 	}
 	u := new(big.Int).Exp(acc.Nu, eInverse, sk.N)
+	verifTraceWitness(acc, e)
 	return &Witness{U: u, E: e}, nil
 }
